@@ -83,6 +83,9 @@ func body10p(s scn, m cancelMode, readTimeout time.Duration, stall bool, silentA
 		if stall {
 			c.C.StallWrites = true
 		}
+		if s.oneByte {
+			c.C.OneByte = true
+		}
 		fa := &failAt{}
 		q, steps := s.mk(c, fa)
 		if silentAfter > 0 && silentAfter < len(steps) {
@@ -319,7 +322,7 @@ func bodyHandshakeCancel(m cancelMode, helloAfter time.Duration, readTimeout tim
 
 // C10 — cancellation ends the query promptly, sends Cancel and closes the connection.
 func C10(c *vk.Ctx) {
-	c.Rule("scenarios {select, insert, streamed insert, LZ4 select, select with telemetry, insert with stalled writes, select during which the server falls silent inside a Data block or inside the nested part of an exception chain, select and insert during which the server falls silent or keeps reporting progress once a second without ever ending the stream, select on a transport whose Close reports an error, select and insert (also with a silent server) on a client whose previous query ended with a server exception or ended well, handshake with prompt / late / no hello} x {explicit cancel() from a canceller thread placed by the scheduler at every point of every other thread, context deadline at fake 1 s and 5 s, explicit cancel of a context that also carries a 1 h deadline} x read timeout {3 s, 100 ms} x all schedules (incl. clock steps) up to the deviation bound. distinct_nontrivial = executions.")
+	c.Rule("scenarios {select, insert, streamed insert, LZ4 select, select with telemetry, insert with stalled writes, select during which the server falls silent inside a Data block or inside the nested part of an exception chain (also on a transport that hands over one byte per read, so that every earlier body read armed a deadline of its own), select and insert during which the server falls silent or keeps reporting progress once a second without ever ending the stream, select on a transport whose Close reports an error, select and insert (also with a silent server) on a client whose previous query ended with a server exception or ended well, handshake with prompt / late / no hello} x {explicit cancel() from a canceller thread placed by the scheduler at every point of every other thread, context deadline at fake 1 s and 5 s, explicit cancel of a context that also carries a 1 h deadline} x read timeout {3 s, 100 ms} x all schedules (incl. clock steps) up to the deviation bound. distinct_nontrivial = executions.")
 	quick := c.Quick()
 	bound := 1
 	if !quick {
@@ -404,6 +407,15 @@ func C10(c *vk.Ctx) {
 			for _, m := range []cancelMode{{"cancel", 0, 0}, {"deadline1s", time.Second, 0}, {"deadline5s", 5 * time.Second, 0}} {
 				id := fmt.Sprintf("%s/%s", ps.name, m.name)
 				jobs = append(jobs, job{id, body10s(ps, m, 0, false, 99), bound, true, "C10/" + ps.name})
+			}
+			// the same with a transport that delivers one byte per Read: the packets before the
+			// silence were read piecewise, each body read with a deadline of its own
+			bs := ps
+			bs.name += "-bytewise"
+			bs.oneByte = true
+			for _, m := range []cancelMode{{"cancel", 0, 0}, {"deadline5s", 5 * time.Second, 0}} {
+				id := fmt.Sprintf("%s/%s", bs.name, m.name)
+				jobs = append(jobs, job{id, body10s(bs, m, 0, false, 99), bound, true, "C10/" + bs.name})
 			}
 		}
 	}
